@@ -91,6 +91,7 @@ macro_rules! field_ops_body {
             }
             "is_zero" => Ok(Some(Out::Ok(vec![Val::Bool(a(0)?.is_zero())]))),
             "eq" => Ok(Some(Out::Ok(vec![Val::Bool(a(0)? == a(1)?)]))),
+            "ne" => Ok(Some(Out::Ok(vec![Val::Bool(a(0)? != a(1)?)]))),
             _ => Ok(None),
         }
     }};
@@ -157,6 +158,7 @@ macro_rules! repr_ops_body {
         "lt" => ok1(Val::Bool(a(0)? < a(1)?)),
         "gt" => ok1(Val::Bool(a(0)? > a(1)?)),
         "eq" => ok1(Val::Bool(a(0)? == a(1)?)),
+        "ne" => ok1(Val::Bool(a(0)? != a(1)?)),
         "from_u64" => {
             let l = get_limbs(arg($args, 0)?)?;
             ok1($wrap(<$T>::from(l[0])))
